@@ -28,5 +28,13 @@ for d in sorted(os.listdir(os.path.join(HERE, "seeded"))):
             keys.append(k.replace("key: ", ""))
     tests = m.get("tests", {}).get("summary", "")
     rows.append("| %s | %s | %s | %s | %s |" % (d, files, (desc or "").replace("|", "/")[:170], caught, "; ".join(keys)[:160].replace("|", "/")))
-print("| seed | file(s) | change | reported by | first keys |\n|---|---|---|---|---|")
-print("\n".join(rows))
+table = "| seed | file(s) | change | reported by (quick tier) | first keys |\n|---|---|---|---|---|\n" + "\n".join(rows)
+import sys
+if "--update-design" in sys.argv:
+    p = os.path.join(HERE, "DESIGN.md")
+    s = open(p).read()
+    b, e = "<!-- SEEDTABLE BEGIN -->", "<!-- SEEDTABLE END -->"
+    s = s[:s.index(b) + len(b)] + "\n" + table + "\n" + s[s.index(e):]
+    open(p, "w").write(s)
+else:
+    print(table)
